@@ -21,7 +21,8 @@ PROPS = {
         level="exploration",
         rule="inputs: raw DEFLATE streams from zlib/zlib-ng/libdeflate/miniz_oxide over their parameter grids, "
              "from the independent valid-stream generator, hand-built pathological shapes, and byte/bit mutations "
-             "of all of these. evaluations = inputs judged. non-trivial = the library accepted the input (Ok for "
+             "of all of these; three zlib streams with about 8, 35 and 137 MiB of plaintext (beyond the crate's only size "
+             "constant, 128 MiB). evaluations = inputs judged. non-trivial = the library accepted the input (Ok for "
              "at least one verify setting), distinct by a 64-bit content hash of D[..compressed_size]",
         assumptions=COMMON_ASSUME + [
             "generator streams are used only if zlib's inflate confirms plaintext and exact length",
@@ -35,7 +36,8 @@ PROPS = {
         technique='runtime monitoring: differential oracle (zlib inflate) over generated, directed and mutated streams; coverage-guided (libFuzzer+ASan) inputs in the thorough tier',
         level="exploration",
         rule="same stream sources as C02 plus alphabet sweeps (every literal, every length code with min/max/"
-             "random extra bits, every distance code with min/max/random extra bits, fixed and dynamic codes). "
+             "random extra bits, every distance code with min/max/random extra bits, fixed and dynamic codes), and three "
+             "multi-block zlib streams with about 8, 35 and 137 MiB of plaintext. "
              "evaluations = inputs judged. non-trivial = accepted by BOTH the library and zlib's inflate (raw, "
              "32 KiB window), distinct by content hash of the consumed prefix",
         assumptions=COMMON_ASSUME + [
@@ -52,7 +54,8 @@ PROPS = {
         technique='runtime monitoring: panic/abort/CPU-budget monitors over exhaustive tiny inputs and hostile generated inputs (checked build); coverage-guided (libFuzzer+ASan) inputs in the thorough tier',
         level="exploration",
         rule="every byte string of length <= 3 (and = 4 in the thorough tier) x both verify settings, enumerated "
-             "completely; plus noise behind every plausible block header, all generator/compressor/shape streams "
+             "completely; plus noise behind every plausible block header, all generator/compressor/shape streams, three "
+             "streams with 8 to 137 MiB of plaintext "
              "and 6 mutants of each. evaluations = calls of decompress_deflate_stream under the panic/CPU/death "
              "monitors. non-trivial = sampled input that got past the parser stage (Ok, or Err with a non-parser "
              "exit code, or panic), distinct by content hash; the enumerated strings are reported separately as "
@@ -101,7 +104,9 @@ PROPS.update({
         level="exploration",
         rule="every byte string of length <= 3 (= 4 in the thorough tier) completely; edge-case assemblers; files assembled "
              "from 0-4 streams (four compressors + independent generator) behind zlib/gzip/zip/PNG wrappers between clean or "
-             "hostile junk, each followed by 0-3 cumulative mutations; repo samples and mutants. evaluations = files judged "
+             "hostile junk (an eighth of them with the first wrapper, a twelfth with a literal run, on or next to a multiple of 64 KiB; a "
+             "twentieth of the streams are pathological shapes), each followed by 0-3 cumulative mutations; two files with a zlib "
+             "member of about 35 and 137 MiB of plaintext; repo samples and mutants. evaluations = files judged "
              "(expand + recreate, most also through the zstd pair). non-trivial = sampled file containing at least one signature "
              "position of the scanner or expanding to at least one non-literal chunk, distinct by content hash; enumerated tiny "
              "files are reported separately (tiny_files_enumerated)",
@@ -119,7 +124,8 @@ PROPS.update({
         level="exploration",
         rule="one premise-satisfying stream per case x 4 wrapper kinds (zlib 4 header bytes; gzip 16 optional-field subsets "
              "with random field contents; ZIP name/extra lengths 0..300, data descriptor, central directory; PNG 1-8 IDAT "
-             "chunks with/without envelope) x clean/hostile junk x prefix/suffix lengths 0..4096. evaluations = files expanded. "
+             "chunks with/without envelope) x clean/hostile junk x prefix/suffix lengths 0..4096, a sixth of the files with the "
+             "wrapper's two signature bytes on or next to a multiple of 64 KiB. evaluations = files expanded. "
              "non-trivial = premise holds and the plaintext does not already occur verbatim in the file, distinct by content hash",
         assumptions=COMMON_ASSUME,
         min_evaluations=200,
@@ -132,7 +138,8 @@ PROPS.update({
         level="exploration",
         rule="files from the C01 assembler (incl. edge cases, noise, mutants) x capacities {0, 1, size/2, size-1, size, size+1, "
              "size+k, 2*size, occasionally 128 MiB} where size = |expand(F)|, plus non-frames {empty, the file itself, noise, "
-             "three truncations of the frame, frame without last byte, frame without magic}. evaluations = decompress_zstd "
+             "three truncations of the frame, frame without last byte, frame without magic}; one file in 4000 is 3 to 40 MiB of "
+             "noise (sizes walked systematically). evaluations = decompress_zstd "
              "calls judged. non-trivial = file whose compress_zstd succeeded and whose whole sweep ran, distinct by content hash",
         assumptions=COMMON_ASSUME + ["|expand(F)| is deterministic (C14)"],
         min_evaluations=500,
@@ -241,7 +248,10 @@ PROPS.update({
         level="exploration",
         rule="per case a seeded set of 12 inputs (stream + file each, incl. mutants) x 8 public entry points (both verify settings, "
              "recompress, expand, recreate, zstd pair, the two C wrappers). evaluations = function calls compared with the baseline "
-             "(sequential repeat, 3 concurrent phases on 16 threads, 3 processes). non-trivial = (input, all-function result row), "
+             "(sequential repeat, 3 concurrent phases on 16 threads, 3 processes); every 12th case adds a zlib stream with 4 to 7 MiB "
+             "of plaintext in which estimator candidates tie (run-length-only, stored, level 1, Huffman-only), called 3x in sequence "
+             "and from 6 threads; every 50th case repeats calls on one thread before and after a call whose expanded form exceeds "
+             "128 MiB. non-trivial = (input, all-function result row), "
              "distinct by digest",
         assumptions=COMMON_ASSUME,
         min_evaluations=500,
